@@ -5,6 +5,9 @@ mod pipeline;
 
 mod parser;
 
+#[cfg(feature = "verif")]
+pub mod verif;
+
 #[cfg(test)]
 mod tests;
 
